@@ -356,7 +356,8 @@ class bpch2(bpch_base):
         tpath = os.path.join(os.path.dirname(path), 'tracerinfo.dat')
         if not os.path.exists(tpath):
             tpath = 'tracerinfo.dat'
-        self._tdata = np.recfromtxt(tpath, dtype=None, comments='#', names=[
+        self._tdata = np.genfromtxt(tpath, dtype=None, comments='#',
+                                    encoding='bytes', names=[
                                     'shortname', 'fullname', 'kgpermole',
                                     'carbon', 'tracerid', 'scale', 'units'],
                                     delimiter=[9, 30, 10, 3, 9, 10, 41],
@@ -366,7 +367,8 @@ class bpch2(bpch_base):
         dpath = os.path.join(os.path.dirname(path), 'diaginfo.dat')
         if not os.path.exists(dpath):
             dpath = 'diaginfo.dat'
-        self._ddata = np.recfromtxt(dpath, dtype=None, comments='#', names=[
+        self._ddata = np.genfromtxt(dpath, dtype=None, comments='#',
+                                    encoding='bytes', names=[
                                     'offset', 'category', 'comment'],
                                     delimiter=[9, 40, 100], autostrip=True)
 
